@@ -12,7 +12,7 @@ PKG=./$(dirname $REL)/
 go test -vet=off -count=1 $PKG > /tmp/confirm.$P.$K.clean.log 2>&1; c1=$?
 git apply $O/mut$K.diff || { echo "$P mut$K: patch does not apply"; exit 9; }
 go test -vet=off -count=1 $PKG > /tmp/confirm.$P.$K.mut.log 2>&1; c2=$?
-rm -rf $(dirname $REL)/mut${K}_demo_test.go; [ "$(dirname $REL)" = mutdemo ] && rm -rf mutdemo
+rm -f $REL; case "$(dirname $REL)" in mutdemo*) rm -rf "$(dirname $REL)";; esac
 go test -vet=off -count=1 ./... > /tmp/confirm.$P.$K.suite.log 2>&1; c3=$?
 git checkout -q -- . ; git clean -fdq
 echo "$P mut$K: demo-clean rc=$c1 (want 0), demo-mutated rc=$c2 (want !=0), suite-with-mutation rc=$c3 (want 0)"
